@@ -26,6 +26,8 @@ function budget(prop, tier) {
 // module loading (C16)
 // ------------------------------------------------------------------------------------------------
 let MODS = null;
+// modules whose id starts with "stress_" are for the hash256 termination leg only
+let STRESS_TOO = false;
 async function loadModules() {
   if (MODS) return MODS;
   const index = JSON.parse(fs.readFileSync(path.join(JSRT, "index.json"), "utf8"));
@@ -37,7 +39,7 @@ async function loadModules() {
       const nf = Object.fromEntries(e.number_formats.map((n) => [n, () => true]));
       const P = m.default.buildParsers({ stringFormats: sf, numberFormats: nf });
       const names = Object.keys(P).sort();
-      if (names.length > 0) MODS.push({ id: e.id, P, names, cache: new Map(), file: e.file, sf, nf });
+      if (names.length > 0 && (STRESS_TOO || !e.id.startsWith("stress_"))) MODS.push({ id: e.id, P, names, cache: new Map(), file: e.file, sf, nf });
     } catch (err) {
       // a module that does not load is the C04 leg's business
     }
@@ -694,9 +696,82 @@ async function c04node(listFile) {
 // C13, clause "terminates on recursive types" and independence of a digest from what was hashed
 // before on the same objects: every parser of a compiled module is hashed, another parser is
 // hashed in between, it is hashed again, and once more on a brand-new module instance.
+// "Terminates" is decided with a step budget instead of a clock: every entry of a reference to a
+// named type during one hash256() / hash() call is a step.  The walk is linear in the size of the
+// type for everything the compiler emits from ordinary programs (the largest count over the
+// module set is reported in the evidence); a call that needs more than STEP_BUDGET steps is
+// reported as hash256-step-budget-exceeded without waiting for it.
+const STEP_BUDGET = Number(process.env.JSIM_STEP_BUDGET || 100000);
+class StepBudgetExceeded extends Error {}
+let STEPS = 0;
+let STEP_TAP = false;
+async function installStepTap() {
+  if (STEP_TAP) return true;
+  const C = await rt("codegen-v2");
+  const proto = C.BaseRefRuntype && C.BaseRefRuntype.prototype;
+  if (!proto || typeof proto.hash256 !== "function" || typeof proto.hash !== "function") return false;
+  for (const k of ["hash256", "hash"]) {
+    const orig = proto[k];
+    proto[k] = function (...a) {
+      if (++STEPS > STEP_BUDGET) throw new StepBudgetExceeded(k);
+      return orig.apply(this, a);
+    };
+  }
+  STEP_TAP = true;
+  return true;
+}
+const isRef = (n) => n && typeof n.refName === "string" && typeof n.getNamedRuntypes === "function";
+function refsBelow(node, out, depth = 0) {
+  if (!node || depth > 200) return out;
+  if (isRef(node)) {
+    out.add(node.refName);
+    return out;
+  }
+  const ch = typeof node.describeChildren === "function" ? node.describeChildren() : [];
+  for (const c of ch) refsBelow(c, out, depth + 1);
+  return out;
+}
+// Number of simple paths through the graph of named types, starting from a parser (capped): the
+// input feature that identifies known finding KF-C13-1.
+function simplePathsFrom(parser, cap) {
+  const root = parser && parser._runtype;
+  if (!root) return 0;
+  let named = null;
+  const adj = new Map();
+  const edges = (name) => {
+    let e = adj.get(name);
+    if (!e) {
+      e = named && named[name] ? [...refsBelow(named[name], new Set())].sort() : [];
+      adj.set(name, e);
+    }
+    return e;
+  };
+  const findNamed = (n, depth = 0) => {
+    if (!n || depth > 200 || named) return;
+    if (isRef(n)) {
+      named = n.getNamedRuntypes();
+      return;
+    }
+    for (const c of typeof n.describeChildren === "function" ? n.describeChildren() : []) findNamed(c, depth + 1);
+  };
+  findNamed(root);
+  if (!named) return 0;
+  let count = 0;
+  const active = new Set();
+  const walk = (name) => {
+    if (count > cap || active.has(name)) return;
+    count++;
+    active.add(name);
+    for (const t of edges(name)) walk(t);
+    active.delete(name);
+  };
+  for (const r of [...refsBelow(root, new Set())].sort()) walk(r);
+  return count;
+}
+
 async function execStability(mods, run) {
   const base = mods.find((m) => m.id === run.module);
-  const out = { violations: [], hashed: 0 };
+  const out = { violations: [], hashed: 0, maxSteps: 0, stepTap: await installStepTap() };
   if (!base) return out;
   const viol = (cls, detail) => {
     if (!out.violations.some((v) => v.class === cls)) out.violations.push({ property: "C13", class: cls, detail });
@@ -706,14 +781,29 @@ async function execStability(mods, run) {
   for (let i = 0; i < names.length; i++) {
     const P = base.P[names[i]];
     let a, b, c, h32a, h32b;
+    const step = (f) => {
+      STEPS = 0;
+      try {
+        return f();
+      } finally {
+        if (STEPS > out.maxSteps) out.maxSteps = STEPS;
+      }
+    };
     try {
-      a = P.hash256();
-      h32a = P.hash();
-      base.P[names[(i + 1) % names.length]].hash256();
-      b = P.hash256();
-      h32b = P.hash();
-      c = fresh.P[names[i]].hash256();
+      a = step(() => P.hash256());
+      h32a = step(() => P.hash());
+      step(() => base.P[names[(i + 1) % names.length]].hash256());
+      b = step(() => P.hash256());
+      h32b = step(() => P.hash());
+      c = step(() => fresh.P[names[i]].hash256());
     } catch (e) {
+      if (e instanceof StepBudgetExceeded) {
+        const paths = simplePathsFrom(P, 200000);
+        viol(paths >= 100000 ? "hash-step-budget-exceeded:simple-paths-through-named-types>=100000" : "hash-step-budget-exceeded", { module: base.id, parser: names[i], call: e.message, budget: STEP_BUDGET, simple_paths_through_named_types: paths });
+        out.budgetExceeded = (out.budgetExceeded || 0) + 1;
+        // the other parsers of such a module reach the same types
+        break;
+      }
       viol("hash256-throws", { module: base.id, parser: names[i], msg: String(e && e.message).slice(0, 200) });
       continue;
     }
@@ -738,7 +828,11 @@ async function workerMain(prop) {
   try {
     let ctxs = {};
     if (prop === "C13S") {
+      STRESS_TOO = true;
       ctxs.mods = await loadModules();
+      // stress modules first: they are part of the quick tier's first 200 modules
+      const isStress = (m) => (m.id.startsWith("stress_") ? 0 : 1);
+      ctxs.mods = [...ctxs.mods].sort((a, b) => isStress(a) - isStress(b));
       process.on("message", async (m) => {
         if (m.done) process.exit(0);
         try {
@@ -996,6 +1090,10 @@ async function main() {
     try {
       await pool(SELF, ["C13S"], Array.from({ length: nMods }, (_, i) => i), workers, (i, r) => {
         stability.parsers += r.hashed || 0;
+        stability.max_steps_of_one_call = Math.max(stability.max_steps_of_one_call || 0, r.maxSteps || 0);
+        stability.step_budget = STEP_BUDGET;
+        stability.step_tap = !!r.stepTap;
+        stability.calls_over_budget = (stability.calls_over_budget || 0) + (r.budgetExceeded || 0);
         for (const v of r.violations) if (!agg.viol.has(v.class)) agg.viol.set(v.class, { index: -3, v, run: { ...r.run, ops: [{ op: "hash256-stability" }] } });
       }, (i, run) => st.push({ i, run }));
     } catch (e) {
